@@ -21,6 +21,7 @@ ENTRIES = [
 
 
 def run(ctx):
+    ctx.do(DT.rule_lk4)
     ctx.do(H.rule_g1)
     ctx.do(H.rule_d1)
     ctx.do(H.rule_i1)
